@@ -1,7 +1,7 @@
 #!/bin/bash
 # usage: dbg_benign.sh <benign id> <prop> — scratch copy, apply, run one property, show notes and alarms
 S=/tmp/scr_$1; rm -rf $S; cp -a ${BASE:-/repo} $S && git -C $S apply /verif/benign/$1/patch.diff || exit 3
-VCHECK_INLINE_DEBUG=1 VERIF_REPO=$S /verif/bin/vcheck -prop $2 -out $S/.ev 2>&1 | grep -v "^  rule\|^VIOLATION prop" | cut -c1-${W:-500} | head -${N:-30}
+VCHECK_INLINE_DEBUG=1 VERIF_REPO=$S /verif/bin/vcheck -prop $2 -out $S/.ev 2>&1 | grep -v "^  rule\|^VIOLATION prop\|note: normalisation" | cut -c1-${W:-500} | head -${N:-30}
 python3 -c "
 import json
 e=json.load(open('$S/.ev/$2.json'))
